@@ -116,6 +116,15 @@ fn gen(g: &mut G) -> Plan {
         _ => vec![" chunked ".trim().to_string()],
     };
     let chunked = !te.is_empty();
+    if chunked && ncl > 0 && cl_valid && !cl_debatable && cl_nums.len() == ncl && cl_nums.windows(2).all(|w| w[0] == w[1]) && n % 2 == 0 {
+        // (no draw) a well-formed Content-Length next to chunked that says something else than the chunked
+        // body holds - smaller, zero or larger: chunked wins, the number means nothing
+        let m = [n / 2, 0, n + 7][n % 3];
+        for c in cl.iter_mut() {
+            *c = m.to_string();
+        }
+        g.probe("chunked-next-to-a-content-length-of-another-size");
+    }
     let must_be_empty = method == "HEAD" || (100..200).contains(&status) || status == 204 || status == 304;
     let content_encoding_gzip = must_be_empty && g.chance(1, 5);
     let mut why = String::new();
